@@ -614,7 +614,12 @@ class Sym:
     def __format__(self, spec):
         v = _try_numeric(self)
         if v is None:
-            _ctx().realisations.append(("format", self.short()))
+            c = _ctx()
+            if getattr(c, "format_tokens", False) and len(self.t) == 1:
+                (m, co), = self.t.items()
+                if co == 1 and len(m) == 1 and m[0][1] == 1:
+                    return m[0][0]          # a bare variable prints as its token (C17 round trips)
+            c.realisations.append(("format", self.short()))
             return "<sym>"
         return format(float(v), spec)
 
